@@ -61,7 +61,11 @@ func genKeys() {
 	if err != nil {
 		panic(err)
 	}
-	keys = map[string]*key{"k1": {ec, selfSigned(ec, "k1")}, "k2": {rs, selfSigned(rs, "k2")}}
+	rs3, err := rsa.GenerateKey(rand.Reader, 3072)
+	if err != nil {
+		panic(err)
+	}
+	keys = map[string]*key{"k1": {ec, selfSigned(ec, "k1")}, "k2": {rs, selfSigned(rs, "k2")}, "k3": {rs3, selfSigned(rs3, "k3")}}
 }
 
 func sign(k *key, payload string) string {
